@@ -730,3 +730,447 @@ Proof.
     assert (0 <= (1 - p) ^ k) by (apply Qpower_0_le; lra).
     assert ((1 - p) ^ k <= 1) by (apply Qpower_le1; try lra; lia). lra.
 Qed.
+
+(* ------------------------------------------------------------------------- *)
+(* Poisson, relative to e = exp(-mu) *)
+Lemma fact_loop_pos n : (0 < fact_loop n)%Z.
+Proof. induction n as [|n IH]; cbn [fact_loop]; [lia|]. apply Z.mul_pos_pos; lia. Qed.
+Lemma factorial_pos n : (0 < factorial n)%Z.
+Proof. unfold factorial. destruct (n <? 2)%Z; [lia|apply fact_loop_pos]. Qed.
+
+Lemma poisson_law mu e : 0 <= mu -> 0 <= e -> discrete_law (poisson_pmf mu e) (poisson_cdf mu e) 0.
+Proof.
+  intros Hm He. split; [|split].
+  - intro k. unfold poisson_pmf. brk; [lra|]. rewrite Qred_correct.
+    pose proof (iZ_pos _ (factorial_pos k)).
+    apply Qle_shift_div_l; [assumption|]. rewrite Qmult_0_l.
+    apply Qmult_le_0_compat; [apply Qpower_0_le|]; assumption.
+  - intros k Hk. unfold poisson_pmf. brk; [reflexivity|lia].
+  - intro t. unfold poisson_cdf. rewrite <- sumZ_scale. apply sumZ_ext. intros k Hk.
+    unfold poisson_pmf, poisson_term. brk; [lia|]. rewrite !Qred_correct.
+    pose proof (iZ_pos _ (factorial_pos k)). field. lra.
+Qed.
+
+(* ------------------------------------------------------------------------- *)
+(* Binomial *)
+Lemma choose_loop_pos M j : (Z.of_nat j < M)%Z ->
+  (0 < fst (choose_loop M j) /\ 0 < snd (choose_loop M j))%Z.
+Proof.
+  induction j as [|j IH]; intro H; [cbn; lia|].
+  cbn [choose_loop]. destruct (choose_loop M j) as [a b]. cbn [fst snd] in *.
+  destruct IH as [Ha Hb]; [lia|]. split; apply Z.mul_pos_pos; lia.
+Qed.
+
+Lemma choose_nonneg n k : (0 <= choose n k)%Z.
+Proof.
+  unfold choose. brk; try lia.
+  pose proof (choose_loop_pos (n + 1) (Z.to_nat (Z.min k (n - k))) ltac:(lia)) as [Ha Hb].
+  destruct (choose_loop (n + 1) (Z.to_nat (Z.min k (n - k)))) as [a b]. cbn [fst snd] in *.
+  apply Z.div_pos; lia.
+Qed.
+
+Lemma binomial_law n p : 0 <= p -> p <= 1 -> discrete_law (binomial_pmf n p) (binomial_cdf n p) 0.
+Proof.
+  intros H0 H1. split; [|split].
+  - intro k. unfold binomial_pmf. brk; try lra. rewrite Qred_correct.
+    repeat apply Qmult_le_0_compat.
+    + apply iZ_nonneg, choose_nonneg.
+    + apply Qpower_0_le; lra.
+    + apply Qpower_0_le; lra.
+  - intros k Hk. unfold binomial_pmf. brk; try lia; reflexivity.
+  - intro t. reflexivity.
+Qed.
+
+(* ------------------------------------------------------------------------- *)
+(* Uniform: uniform_cdf is the cdf of the uniform law on [lo,hi] *)
+Lemma uniform_cdf_below lo hi x : x < lo -> uniform_cdf lo hi x == 0.
+Proof. intro H. unfold uniform_cdf. brk; try reflexivity; lra. Qed.
+Lemma uniform_cdf_above lo hi x : lo <= hi -> hi <= x -> uniform_cdf lo hi x == 1.
+Proof. intros H1 H2. unfold uniform_cdf. brk; try reflexivity; lra. Qed.
+Lemma uniform_cdf_between lo hi x : lo <= x -> x < hi -> uniform_cdf lo hi x == (x - lo) / (hi - lo).
+Proof. intros H1 H2. unfold uniform_cdf. brk; try reflexivity; lra. Qed.
+
+(* the normalised length of (-inf, x] ∩ [lo, hi] *)
+Lemma uniform_cdf_clamp lo hi x : lo < hi ->
+  uniform_cdf lo hi x == (Qmin (Qmax x lo) hi - lo) / (hi - lo).
+Proof.
+  intro H. unfold uniform_cdf. brk.
+  - rewrite Q.max_r by lra. rewrite Q.min_l by lra. field. lra.
+  - rewrite Q.max_l by lra. rewrite Q.min_r by lra. field. lra.
+  - rewrite Q.max_l by lra. rewrite Q.min_l by lra. reflexivity.
+Qed.
+
+Lemma uniform_cdf_range lo hi x : lo <= hi -> 0 <= uniform_cdf lo hi x <= 1.
+Proof.
+  intro H. unfold uniform_cdf. brk; try lra. split.
+  - apply Qle_shift_div_l; lra.
+  - apply Qle_shift_div_r; lra.
+Qed.
+
+Lemma uniform_cdf_mono lo hi x y : lo <= hi -> x <= y -> uniform_cdf lo hi x <= uniform_cdf lo hi y.
+Proof.
+  intros H Hxy. pose proof (uniform_cdf_range lo hi y H) as Ry.
+  pose proof (uniform_cdf_range lo hi x H) as Rx.
+  unfold uniform_cdf in *. brk; try lra.
+  unfold Qdiv. apply Qmult_le_compat_r; [lra|]. apply Qinv_le_0_compat. lra.
+Qed.
+
+(* ------------------------------------------------------------------------- *)
+(* Exponential and Gaussian relative to abstract monotone functions *)
+Section Exponential.
+  Variable en : Q -> Q.                      (* x |-> exp(-x) *)
+  Hypothesis en_range : forall x, 0 <= x -> 0 <= en x <= 1.
+  Hypothesis en_anti : forall x y, x <= y -> en y <= en x.
+  Variable lam : Q.
+  Hypothesis lam_pos : 0 < lam.
+
+  Lemma exponential_cdf_range x : 0 <= exponential_cdf en lam x <= 1.
+  Proof.
+    unfold exponential_cdf. brk; [lra|].
+    assert (0 <= lam * x) by (apply Qmult_le_0_compat; lra).
+    pose proof (en_range _ H). lra.
+  Qed.
+
+  Lemma exponential_cdf_mono x y : x <= y -> exponential_cdf en lam x <= exponential_cdf en lam y.
+  Proof.
+    intro Hxy. pose proof (exponential_cdf_range y) as Ry. unfold exponential_cdf in *. brk; try lra.
+    assert (lam * x <= lam * y) by nra. pose proof (en_anti _ _ H). lra.
+  Qed.
+
+  Lemma exponential_cdf_neg x : x < 0 -> exponential_cdf en lam x == 0.
+  Proof. intro H. unfold exponential_cdf. brk; try reflexivity; lra. Qed.
+End Exponential.
+
+Section Gaussian.
+  Variable ef : Q -> Q.                      (* z |-> erf(z / sqrt 2) *)
+  Hypothesis ef_range : forall z, -(1) <= ef z <= 1.
+  Hypothesis ef_mono : forall x y, x <= y -> ef x <= ef y.
+  Variables mu sd : Q.
+  Hypothesis sd_pos : 0 < sd.
+
+  Lemma gaussian_cdf_range x : 0 <= gaussian_cdf ef mu sd x <= 1.
+  Proof. unfold gaussian_cdf. pose proof (ef_range ((x - mu) / sd)). lra. Qed.
+
+  Lemma gaussian_cdf_mono x y : x <= y -> gaussian_cdf ef mu sd x <= gaussian_cdf ef mu sd y.
+  Proof.
+    intro Hxy. unfold gaussian_cdf.
+    assert ((x - mu) / sd <= (y - mu) / sd).
+    { unfold Qdiv. apply Qmult_le_compat_r; [lra|]. apply Qinv_le_0_compat. lra. }
+    pose proof (ef_mono _ _ H). lra.
+  Qed.
+End Gaussian.
+
+(* ------------------------------------------------------------------------- *)
+(* Means *)
+Lemma mean_binomial n p : valid_params (Binomial n p) -> mean_of (Binomial n p) = Ok (inject_Z n * p).
+Proof. intro V. unfold mean_of. now rewrite make_rv_valid. Qed.
+Lemma mean_poisson mu : valid_params (Poisson mu) -> mean_of (Poisson mu) = Ok mu.
+Proof. intro V. unfold mean_of. now rewrite make_rv_valid. Qed.
+Lemma mean_geometric p : valid_params (Geometric p) -> ~ p == 0 -> mean_of (Geometric p) = Ok (1 / p).
+Proof.
+  intros V Hp. unfold mean_of. rewrite make_rv_valid by assumption. cbn [bind mean].
+  destruct (Qis_zero p) eqn:E; [|reflexivity]. apply Qis_zero_spec in E. contradiction.
+Qed.
+(* Geometric(0) passes the constructor; its mean 1/0 is a (diagnosed) division by zero *)
+Lemma mean_geometric_zero p : p == 0 -> mean_of (Geometric p) = Raise ZeroDivisionError.
+Proof.
+  intro Hp. unfold mean_of. rewrite make_rv_valid by (cbn; lra). cbn [bind mean].
+  apply Qis_zero_spec in Hp. now rewrite Hp.
+Qed.
+Lemma mean_bernoulli p : valid_params (Bernoulli p) -> mean_of (Bernoulli p) = Ok p.
+Proof. intro V. unfold mean_of. now rewrite make_rv_valid. Qed.
+Lemma bernoulli_mean_is_expectation p :
+  sumZ (fun k => inject_Z k * bernoulli_pmf p k) 0 1 == p.
+Proof.
+  rewrite sumZ_last by lia. replace (1 - 1)%Z with 0%Z by lia. rewrite sumZ_one.
+  change (bernoulli_pmf p 0) with (1 - p). change (bernoulli_pmf p 1) with p.
+  change (inject_Z 0) with 0. change (inject_Z 1) with 1. ring.
+Qed.
+Lemma mean_exponential lam : valid_params (Exponential lam) -> mean_of (Exponential lam) = Ok (1 / lam).
+Proof.
+  intro V. unfold mean_of. rewrite make_rv_valid by assumption. cbn [bind mean].
+  destruct (Qis_zero lam) eqn:E; [|reflexivity]. apply Qis_zero_spec in E. cbn in V. lra.
+Qed.
+Lemma mean_uniform lo hi : valid_params (Uniform lo hi) ->
+  exists m, mean_of (Uniform lo hi) = Ok m /\ m == (lo + hi) / 2.
+Proof.
+  intro V. unfold mean_of. rewrite make_rv_valid by assumption. cbn [bind mean].
+  eexists; split; [reflexivity|]. field.
+Qed.
+Lemma mean_gaussian mu sd : valid_params (Gaussian mu sd) -> mean_of (Gaussian mu sd) = Ok mu.
+Proof. intro V. unfold mean_of. now rewrite make_rv_valid. Qed.
+
+(* ------------------------------------------------------------------------- *)
+(* Binomial: choose() is the binomial coefficient; binomial theorem; total mass 1 *)
+
+Fixpoint binom (n k : nat) : Z :=
+  match n, k with
+  | _, O => 1
+  | O, S _ => 0
+  | S n', S k' => binom n' k' + binom n' (S k')
+  end%Z.
+
+Lemma binom_gt n : forall k, (n < k)%nat -> binom n k = 0%Z.
+Proof.
+  induction n as [|n IH]; intros [|k] H; try lia; cbn [binom]; [reflexivity|].
+  rewrite !IH by lia. reflexivity.
+Qed.
+
+Lemma fact_loop_S m : fact_loop (S m) = (fact_loop m * Z.of_nat (S m))%Z.
+Proof. reflexivity. Qed.
+
+Lemma binom_fact n : forall k, (k <= n)%nat ->
+  (binom n k * fact_loop k * fact_loop (n - k) = fact_loop n)%Z.
+Proof.
+  induction n as [|n IH]; intros [|k] H; try lia.
+  - reflexivity.
+  - cbn [binom]. rewrite Nat.sub_0_r. cbn [fact_loop]. lia.
+  - cbn [binom]. replace (S n - S k)%nat with (n - k)%nat by lia.
+    destruct (Nat.eq_dec k n) as [->|Hk].
+    + rewrite (binom_gt n (S n)) by lia. pose proof (IH n (Nat.le_refl n)) as E.
+      rewrite Nat.sub_diag in *. rewrite !fact_loop_S. cbn [fact_loop] in *. nia.
+    + pose proof (IH k ltac:(lia)) as E1. pose proof (IH (S k) ltac:(lia)) as E2.
+      replace (n - k)%nat with (S (n - S k)) in * by lia.
+      rewrite !fact_loop_S in *.
+      replace (Z.of_nat (S (n - S k))) with (Z.of_nat n - Z.of_nat k)%Z in * by lia.
+      set (a := binom n k) in *. set (b := binom n (S k)) in *.
+      set (fk := fact_loop k) in *. set (fr := fact_loop (n - S k)) in *. set (fn := fact_loop n) in *.
+      replace (Z.of_nat (S k)) with (Z.of_nat k + 1)%Z in * by lia.
+      replace (Z.of_nat (S n)) with (Z.of_nat n + 1)%Z by lia.
+      transitivity ((a * fk * (fr * (Z.of_nat n - Z.of_nat k))) * (Z.of_nat k + 1)
+                    + (b * (fk * (Z.of_nat k + 1)) * fr) * (Z.of_nat n - Z.of_nat k))%Z; [ring|].
+      rewrite E1, E2. ring.
+Qed.
+
+Lemma binom_sym n k : (k <= n)%nat -> binom n k = binom n (n - k).
+Proof.
+  intro H. pose proof (binom_fact n k H) as E1. pose proof (binom_fact n (n - k) ltac:(lia)) as E2.
+  replace (n - (n - k))%nat with k in E2 by lia.
+  pose proof (fact_loop_pos k). pose proof (fact_loop_pos (n - k)).
+  assert (E : (binom n k * (fact_loop k * fact_loop (n - k))
+               = binom n (n - k) * (fact_loop k * fact_loop (n - k)))%Z) by lia.
+  apply Z.mul_cancel_r in E; [exact E|]. nia.
+Qed.
+
+Lemma choose_loop_snd M j : snd (choose_loop M j) = fact_loop j.
+Proof.
+  induction j as [|j IH]; [reflexivity|]. cbn [choose_loop].
+  destruct (choose_loop M j) as [a b]. cbn [fst snd] in *. rewrite fact_loop_S, IH. reflexivity.
+Qed.
+
+Lemma choose_loop_fst n j : (j <= n)%nat ->
+  (fst (choose_loop (Z.of_nat n + 1) j) * fact_loop (n - j) = fact_loop n)%Z.
+Proof.
+  induction j as [|j IH]; intro H.
+  - cbn [choose_loop fst]. rewrite Nat.sub_0_r. lia.
+  - cbn [choose_loop]. destruct (choose_loop (Z.of_nat n + 1) j) as [a b]. cbn [fst snd] in *.
+    specialize (IH ltac:(lia)). replace (n - j)%nat with (S (n - S j)) in IH by lia.
+    rewrite fact_loop_S in IH.
+    replace (Z.of_nat (S (n - S j))) with (Z.of_nat n + 1 - Z.of_nat (S j))%Z in IH by lia.
+    rewrite <- IH. ring.
+Qed.
+
+Lemma choose_binom n k : (0 <= k <= n)%Z -> choose n k = binom (Z.to_nat n) (Z.to_nat k).
+Proof.
+  intro H. unfold choose. brk; try lia.
+  set (m := Z.to_nat (Z.min k (n - k))).
+  assert (Hm : (m <= Z.to_nat n)%nat) by lia.
+  replace (n + 1)%Z with (Z.of_nat (Z.to_nat n) + 1)%Z by lia.
+  pose proof (choose_loop_fst (Z.to_nat n) m Hm) as Ef.
+  pose proof (choose_loop_snd (Z.of_nat (Z.to_nat n) + 1) m) as Es.
+  destruct (choose_loop (Z.of_nat (Z.to_nat n) + 1) m) as [a b]. cbn [fst snd] in *. subst b.
+  pose proof (binom_fact (Z.to_nat n) m Hm) as Eb.
+  pose proof (fact_loop_pos m). pose proof (fact_loop_pos (Z.to_nat n - m)).
+  assert (Ea : a = (binom (Z.to_nat n) m * fact_loop m)%Z).
+  { apply (Z.mul_cancel_r _ _ (fact_loop (Z.to_nat n - m))); [lia|]. lia. }
+  rewrite Ea, Z.div_mul by lia.
+  destruct (Z.le_ge_cases k (n - k)) as [Hc|Hc].
+  - unfold m. now replace (Z.min k (n - k)) with k by lia.
+  - unfold m. replace (Z.min k (n - k)) with (n - k)%Z by lia.
+    rewrite (binom_sym (Z.to_nat n) (Z.to_nat k)) by lia. f_equal. lia.
+Qed.
+
+
+Lemma sum_n_plus f g lo n : sum_n (fun k => f k + g k) lo n == sum_n f lo n + sum_n g lo n.
+Proof. induction n as [|n IH]; [cbn; ring|]. rewrite !sum_n_S, IH. ring. Qed.
+
+Lemma sum_n_first f lo n : sum_n f lo (S n) == f lo + sum_n f (lo + 1) n.
+Proof.
+  change (S n) with (1 + n)%nat. rewrite sum_n_app. rewrite sum_n_S. cbn [sum_n].
+  replace (lo + Z.of_nat 0)%Z with lo by lia. replace (lo + Z.of_nat 1)%Z with (lo + 1)%Z by lia. ring.
+Qed.
+
+Lemma sum_n_shift f lo n : sum_n f (lo + 1) n == sum_n (fun k => f (k + 1)%Z) lo n.
+Proof.
+  induction n as [|n IH]; [reflexivity|]. rewrite !sum_n_S, IH.
+  replace (lo + 1 + Z.of_nat n)%Z with (lo + Z.of_nat n + 1)%Z by lia. reflexivity.
+Qed.
+
+Section BinomialTheorem.
+  Variables p q : Q.
+  Definition bterm (n : nat) (k : Z) : Q :=
+    inject_Z (binom n (Z.to_nat k)) * p ^ k * q ^ (Z.of_nat n - k).
+
+  Lemma bterm_step n j : (0 <= j <= Z.of_nat n)%Z ->
+    bterm (S n) (j + 1) == p * bterm n j + q * bterm n (j + 1).
+  Proof.
+    intro H. unfold bterm.
+    replace (Z.to_nat (j + 1)) with (S (Z.to_nat j)) by lia. cbn [binom].
+    rewrite inject_Z_plus. rewrite Qpower_succ by lia.
+    replace (Z.of_nat (S n) - (j + 1))%Z with (Z.of_nat n - j)%Z by lia.
+    destruct (Z.eq_dec j (Z.of_nat n)) as [->|Hj].
+    - rewrite (binom_gt n (S (Z.to_nat (Z.of_nat n)))) by lia. change (inject_Z 0) with 0. ring.
+    - replace (Z.of_nat n - j)%Z with ((Z.of_nat n - (j + 1)) + 1)%Z by lia.
+      rewrite Qpower_succ by lia. ring.
+  Qed.
+
+  Lemma bterm_zero n : bterm (S n) 0 == q * bterm n 0.
+  Proof.
+    unfold bterm. cbn [Z.to_nat binom]. rewrite !Z.sub_0_r.
+    rewrite Nat2Z.inj_succ. unfold Z.succ. rewrite Qpower_succ by lia.
+    destruct n; cbn [binom]; ring.
+  Qed.
+
+  Lemma bterm_beyond n : bterm n (Z.of_nat n + 1) == 0.
+  Proof. unfold bterm. rewrite binom_gt by lia. change (inject_Z 0) with 0. ring. Qed.
+
+  Theorem binomial_theorem n : sum_n (bterm n) 0 (S n) == (p + q) ^ Z.of_nat n.
+  Proof.
+    induction n as [|n IH].
+    - rewrite sum_n_S. cbn [sum_n]. unfold bterm. cbn. ring.
+    - rewrite sum_n_first, sum_n_shift, bterm_zero.
+      rewrite (sum_n_ext _ (fun k => bterm n k * p + bterm n (k + 1) * q)).
+      2:{ intros i Hi. rewrite bterm_step by lia. ring. }
+      rewrite sum_n_plus, !sum_n_scale.
+      rewrite <- (sum_n_shift (bterm n) 0 (S n)).
+      assert (E : bterm n 0 + sum_n (bterm n) (0 + 1) (S n) == sum_n (bterm n) 0 (S n)).
+      { rewrite <- sum_n_first. rewrite sum_n_S. replace (0 + Z.of_nat (S n))%Z with (Z.of_nat n + 1)%Z by lia.
+        rewrite bterm_beyond. ring. }
+      rewrite Nat2Z.inj_succ. unfold Z.succ. rewrite Qpower_succ by lia. rewrite <- IH.
+      rewrite <- E at 2. ring_simplify. rewrite <- E. ring.
+  Qed.
+End BinomialTheorem.
+
+
+Lemma binomial_pmf_bterm n p k : (0 <= k <= n)%Z ->
+  binomial_pmf n p k == bterm p (1 - p) (Z.to_nat n) k.
+Proof.
+  intro H. unfold binomial_pmf, bterm. brk; try lia. rewrite Qred_correct.
+  rewrite choose_binom by lia. replace (Z.of_nat (Z.to_nat n)) with n by lia. reflexivity.
+Qed.
+
+(* Σ_{k=0..n} C(n,k) p^k (1-p)^(n-k) = 1 *)
+Theorem binomial_total_mass n p : (0 <= n)%Z -> sumZ (binomial_pmf n p) 0 n == 1.
+Proof.
+  intro Hn. unfold sumZ. replace (Z.to_nat (n + 1 - 0)) with (S (Z.to_nat n)) by lia.
+  rewrite (sum_n_ext _ (bterm p (1 - p) (Z.to_nat n))).
+  - rewrite binomial_theorem. setoid_replace (p + (1 - p)) with 1 by ring. apply Qpower_1.
+  - intros i Hi. apply binomial_pmf_bterm. lia.
+Qed.
+
+Lemma binomial_cdf_top n p t : (0 <= n <= t)%Z -> binomial_cdf n p t == 1.
+Proof.
+  intro H. unfold binomial_cdf. rewrite (sumZ_split _ 0 n t) by lia.
+  rewrite binomial_total_mass by lia. rewrite sumZ_zero; [ring|].
+  intros k Hk. unfold binomial_pmf. brk; try lia; reflexivity.
+Qed.
+
+Lemma binomial_good n p : (0 < n)%Z -> 0 <= p -> p <= 1 ->
+  good_rv (Disc (binomial_pmf n p) (binomial_cdf n p)).
+Proof.
+  intros Hn H0 H1. destruct (binomial_law n p H0 H1) as [Hnn [Hb Hs]].
+  assert (Hc : forall k, 0 <= binomial_cdf n p k <= 1).
+  { intro k. split; [eapply cdf_nonneg; eauto|].
+    rewrite <- (binomial_cdf_top n p (Z.max k n)) by lia.
+    eapply cdf_mono; eauto. lia. }
+  split; [|exact Hc]. intro k. split; [apply Hnn|].
+  eapply Qle_trans; [eapply pmf_le_cdf; eauto|apply Hc].
+Qed.
+
+(* ------------------------------------------------------------------------- *)
+(* Statements collected for Properties/C08.v *)
+Lemma good_laws :
+  (forall n p, (0 < n)%Z -> 0 <= p -> p <= 1 -> good_rv (Disc (binomial_pmf n p) (binomial_cdf n p))) /\
+  (forall p, 0 <= p -> p <= 1 -> good_rv (Disc (bernoulli_pmf p) (bernoulli_cdf p))) /\
+  (forall p, 0 <= p -> p <= 1 -> good_rv (Disc (geometric_pmf p) (geometric_cdf p))) /\
+  (forall lo hi, (lo <= hi)%Z -> good_rv (Disc (uniformint_pmf lo hi) (uniformint_cdf lo hi))) /\
+  (forall lo hi, lo <= hi -> good_rv (Cont (uniform_cdf lo hi))).
+Proof.
+  exact (conj binomial_good (conj bernoulli_good (conj geometric_good (conj uniformint_good
+          (fun lo hi H x => uniform_cdf_range lo hi x H))))).
+Qed.
+
+Lemma uniform_cdf_true :
+  (forall lo hi x, lo < hi -> uniform_cdf lo hi x == (Qmin (Qmax x lo) hi - lo) / (hi - lo)) /\
+  (forall lo hi x, x < lo -> uniform_cdf lo hi x == 0) /\
+  (forall lo hi x, lo <= hi -> hi <= x -> uniform_cdf lo hi x == 1) /\
+  (forall lo hi x y, lo <= hi -> x <= y -> uniform_cdf lo hi x <= uniform_cdf lo hi y).
+Proof. exact (conj uniform_cdf_clamp (conj uniform_cdf_below (conj uniform_cdf_above uniform_cdf_mono))). Qed.
+
+Lemma exponential_cdf_facts en lam :
+  (forall x, 0 <= x -> 0 <= en x <= 1) -> (forall x y, x <= y -> en y <= en x) -> 0 < lam ->
+  (forall x, 0 <= exponential_cdf en lam x <= 1) /\
+  (forall x y, x <= y -> exponential_cdf en lam x <= exponential_cdf en lam y) /\
+  (forall x, x < 0 -> exponential_cdf en lam x == 0).
+Proof.
+  intros H1 H2 H3.
+  exact (conj (exponential_cdf_range en H1 lam H3)
+         (conj (exponential_cdf_mono en H1 H2 lam H3) (exponential_cdf_neg en lam))).
+Qed.
+
+Lemma gaussian_cdf_facts ef mu sd :
+  (forall z, -(1) <= ef z <= 1) -> (forall x y, x <= y -> ef x <= ef y) -> 0 < sd ->
+  (forall x, 0 <= gaussian_cdf ef mu sd x <= 1) /\
+  (forall x y, x <= y -> gaussian_cdf ef mu sd x <= gaussian_cdf ef mu sd y).
+Proof.
+  intros H1 H2 H3.
+  exact (conj (gaussian_cdf_range ef H1 mu sd) (gaussian_cdf_mono ef H2 mu sd H3)).
+Qed.
+
+Lemma means_closed_forms :
+  (forall n p, valid_params (Binomial n p) -> mean_of (Binomial n p) = Ok (inject_Z n * p)) /\
+  (forall mu, valid_params (Poisson mu) -> mean_of (Poisson mu) = Ok mu) /\
+  (forall p, valid_params (Geometric p) -> ~ p == 0 -> mean_of (Geometric p) = Ok (1 / p)) /\
+  (forall p, valid_params (Bernoulli p) ->
+     mean_of (Bernoulli p) = Ok p /\ sumZ (fun k => inject_Z k * bernoulli_pmf p k) 0 1 == p) /\
+  (forall lo hi, (lo <= hi)%Z ->
+     exists m, mean_of (UniformInt lo hi) = Ok m /\ m == (inject_Z lo + inject_Z hi) / 2 /\
+               m == sumZ (fun k => inject_Z k * uniformint_pmf lo hi k) lo hi) /\
+  (forall lam, valid_params (Exponential lam) -> mean_of (Exponential lam) = Ok (1 / lam)) /\
+  (forall lo hi, valid_params (Uniform lo hi) ->
+     exists m, mean_of (Uniform lo hi) = Ok m /\ m == (lo + hi) / 2) /\
+  (forall mu sd, valid_params (Gaussian mu sd) -> mean_of (Gaussian mu sd) = Ok mu).
+Proof.
+  exact (conj mean_binomial (conj mean_poisson (conj mean_geometric
+        (conj (fun p V => conj (mean_bernoulli p V) (bernoulli_mean_is_expectation p))
+        (conj uniformint_mean_is_expectation (conj mean_exponential (conj mean_uniform mean_gaussian))))))).
+Qed.
+
+Lemma invalid_params_rejected l :
+  (valid_params l /\ make_rv l = Ok l) \/
+  (~ valid_params l /\ make_rv l = Raise InvalidParameterException /\
+   mean_of l = Raise InvalidParameterException /\
+   forall fo mk, P_law fo l mk = Raise InvalidParameterException).
+Proof.
+  destruct (make_rv_cases l) as [[V E]|[V E]]; [left; auto|right].
+  repeat split; auto using invalid_rejected_mean, invalid_rejected_P.
+Qed.
+
+(* the concrete classes are instances of the generic discrete law *)
+Lemma P_law_valid fo l mk : valid_params l -> P_law fo l mk = P_written (mk (rv_of fo l)).
+Proof. intro V. unfold P_law. now rewrite make_rv_valid. Qed.
+
+Lemma discrete_laws_instantiate fo l : valid_params l ->
+  (forall mu, l = Poisson mu -> 0 <= expneg fo mu) ->
+  match rv_of fo l with
+  | Disc pmf cdf => exists L, discrete_law pmf cdf L
+  | Cont _ => True
+  end.
+Proof.
+  intros V He. destruct l; cbn [rv_of valid_params] in *; try exact I.
+  - exists 0%Z. apply binomial_law; tauto.
+  - exists 0%Z. apply poisson_law; [lra|]. now apply He.
+  - exists 1%Z. apply geometric_law; tauto.
+  - exists 0%Z. apply bernoulli_law; tauto.
+  - exists lo. now apply uniformint_law.
+Qed.
